@@ -149,12 +149,25 @@ pub(crate) fn t_vt_calls() {
         assert!(n == 3 && log[0] == 1 && log[1] == 2 && log[2] == 3, "[C13][C15][C12] Vt::resize resizes the terminal, collects the changed lines and trims the scrollback, once each");
         assert!(vt.size() == (cols, rows), "[C02] size() reports the geometry last requested");
     }
+    // native replay: the real methods ran; judge the same clause from its observable effects
+    #[cfg(not(kani))]
+    {
+        let ok = vt.size() == (cols, rows) && !dirty_flag(&vt.terminal, 0) && !terminal_trim_pending(&vt.terminal);
+        assert!(ok, "[C13][C15][C12] Vt::resize resizes the terminal, collects the changed lines and trims the scrollback, once each");
+    }
     unsafe {
         CALL_N = 0;
     }
+    #[cfg(not(kani))]
+    terminal_set_trim_pending(&mut vt.terminal);
     {
         let ch = vt.feed_str("ab");
         std::mem::forget(ch);
+    }
+    #[cfg(not(kani))]
+    {
+        let ok = !dirty_flag(&vt.terminal, 0) && !terminal_trim_pending(&vt.terminal) && vt.view()[0].cells()[0].char() == 'a';
+        assert!(ok, "[C13][C15][C12] Vt::feed_str executes every function, then collects the changed lines and trims the scrollback, once each");
     }
     #[cfg(kani)]
     {
